@@ -153,6 +153,8 @@ def check_visit_seq(ctx, cfg):
     ai = [c for c in a.calls if c.key == "IntrusiveArrayBuilder<$0,$1>::array_assume_init"]
     fin = [c for c in a.calls if c.key == "IntrusiveArrayBuilder<$0,$1>::finish"]
     ctx.ob(rule, K_VIS + "#assume_init", len(ai) == 1 and len(fin) == 1 and a.dominates(fin[0].bb, ai[0].bb), "array_assume_init is reached only after finish() on the success path", at=b["at"], cfg=cfg)
+    from . import c04 as _c04
+    # finish -> array_assume_init window (rule shared with C04.F)
     # (iv) builder live at every fallible / foreign call after it is built
     cl = Classifier(db)
     n = 0
@@ -224,3 +226,5 @@ def check(ctx):
         check_serialize(ctx, cfg)
         check_deserialize(ctx, cfg)
         check_visit_seq(ctx, cfg)
+        from . import c04
+        c04.check_finish_window(ctx, cfg, "C17.F")
